@@ -524,8 +524,39 @@ class Canon:
             return '?' + show(t)[:40]
 
     # -- linear forms -----------------------------------------------------------------------
+    @staticmethod
+    def lift_ite(t):
+        """(x if c else 0) ** p, (x if c else 0) * y, y * (a + (x if c else 0)): conditionals with a zero branch are pulled
+        outwards through powers and products (products distribute over sums), so that they end up as guarded monomials"""
+        def has_ite(x):
+            return contains(x, lambda y: y[0] == 'ite' and C(0) in (y[2], y[3]))
+        def zero_ite(x):
+            return x[0] == 'ite' and x[3] == C(0)
+        def go(x):
+            if x[0] == 'ite' and x[2] == C(0) and x[3] != C(0):
+                x = ('ite', NOT(x[1]), x[3], C(0))
+            if x[0] != 'bin' or not has_ite(x):
+                return x
+            op, a, b = x[1], go(x[2]), go(x[3])
+            if op == 'Pow' and zero_ite(a) and b[0] == 'const' and isinstance(b[1], int) and b[1] >= 1:
+                return ('ite', a[1], go(BIN('Pow', a[2], b)), C(0))
+            if op == 'Mult':
+                if zero_ite(a):
+                    return ('ite', a[1], go(BIN('Mult', a[2], b)), C(0))
+                if zero_ite(b):
+                    return ('ite', b[1], go(BIN('Mult', a, b[2])), C(0))
+                for u, v, left in ((a, b, True), (b, a, False)):
+                    if u[0] == 'bin' and u[1] in ('Add', 'Sub') and has_ite(u):
+                        l_ = go(BIN('Mult', u[2], v) if left else BIN('Mult', v, u[2]))
+                        r_ = go(BIN('Mult', u[3], v) if left else BIN('Mult', v, u[3]))
+                        return BIN(u[1], l_, r_)
+            return BIN(op, a, b)
+        return go(t)
+
     def lin(self, t):
         """term -> list of Mono."""
+        if t[0] == 'bin' and contains(t, lambda y: y[0] == 'ite' and C(0) in (y[2], y[3])):
+            t = self.lift_ite(t)
         k = t[0]
         if self.is_var(t):
             return [Mono(pconst(1), self.varname(t))]
